@@ -300,7 +300,8 @@ def _serialise(sem_name, init_idx, hist, h, out):
 # conversion from (stub) Kore
 # ------------------------------------------------------------------------------------------------
 
-def kore_definition():
+def kore_definition(variant: int = 0):
+    """variant 1: the same signature, the rules' variables met in the other order (other numbering at the same ordinals)"""
     import pyk.kore.syntax as K
     S = K.SortApp('SortS')
     C = K.SortApp('SortKCell')
@@ -322,9 +323,9 @@ def kore_definition():
         K.SymbolDecl(K.Symbol("Lbl'-LT-'k'-GT-'"), (S,), C, ctor + (K.App('cell'),)),
         K.SymbolDecl(K.Symbol('inj', (K.SortVar('From'), K.SortVar('To'))), (K.SortVar('From'),), K.SortVar('To'), (K.App('functional'),)),
         rule(f(x), g(x, x)),                      # X repeated within a rule
-        rule(g(y, z), f(z)),                      # other names in another rule
+        (rule(g(y, z), f(z)) if variant == 0 else rule(f(z), g(z, y))),   # other names in another rule
         K.Axiom((), K.Top(S)),                    # an axiom that is neither rewrite nor equation: only advances the ordinal
-        rule(g(x, y), g(y, x)),                   # X, Y again: fresh scope per axiom
+        (rule(g(x, y), g(y, x)) if variant == 0 else rule(g(y, x), f(y))),   # X, Y again: fresh scope per axiom
         rule(f(x), K.App('inj', (S, S), (x,))),
         # two sort variables in one axiom (and element variables of those sorts)
         K.SymbolDecl(K.Symbol('pairc', (K.SortVar('S1'), K.SortVar('S2'))), (K.SortVar('S1'), K.SortVar('S2')), C, (K.App('functional'),)),
@@ -354,12 +355,26 @@ def kore_subst(t, s):
 
 
 def conversion_check():
+    """two definitions are loaded in ONE process before either is used (what is learnt about one must not leak into the other)"""
+    from proof_generation.k.kore_convertion.language_semantics import LanguageSemantics
+    loaded = []
+    for variant in (0, 1):
+        defn, e = kore_definition(variant)
+        loaded.append((variant, defn, e, LanguageSemantics.from_kore_definition(defn)))
+    total = {'evals': 0, 'nontrivial': 0, 'viol': []}
+    for variant, defn, e, sem in loaded + loaded[:1]:
+        out = conversion_check_one(variant, defn, e, sem)
+        total['evals'] += out['evals']
+        total['nontrivial'] += out['nontrivial']
+        total['viol'] += out['viol']
+    return total
+
+
+def conversion_check_one(variant, defn, e, sem):
     from . import bridge
     import pyk.kore.syntax as K
     from proof_generation.k.kore_convertion.language_semantics import LanguageSemantics
     out = {'evals': 0, 'nontrivial': 0, 'viol': []}
-    defn, e = kore_definition()
-    sem = LanguageSemantics.from_kore_definition(defn)
     S = e['S']
     a, b = K.App('Lbla'), K.App('Lblb')
     ground = [a, b, e['f'](a), e['g'](a, b)]
